@@ -22,6 +22,7 @@ import (
 	"math/rand"
 	"net"
 	"net/http"
+	"net/http/httptest"
 	"net/http/httptrace"
 	"net/textproto"
 	"os"
@@ -53,6 +54,27 @@ var paths = func() []string {
 		p = append(p, "/w"+strconv.Itoa(i))
 	}
 	return p
+}()
+
+// everything below nLiteralPaths is a clean literal path (what the Coq model's ServeMux description covers)
+var nLiteralPaths = len(paths)
+
+// route patterns beyond literals and request paths that exercise them (reference-mux family); appended to paths
+var muxPatterns = []string{"/", "/static/", "/api/v1/", "/items/{id}", "/exact/{$}", "/files/{p...}", "/lit", "/lit/sub", "/static/css"}
+var muxRequests = []string{"/", "/static", "/static/", "/static/x/y.css", "/static/css", "/api/v1", "/api/v1/users", "/items/7", "/items/",
+	"/items/7/x", "/exact", "/exact/", "/exact/more", "/files/a/b/c", "/files/", "/lit", "/lit/", "/lit/sub", "//lit", "/lit/./sub",
+	"/static/../lit", "/nowhere", "/api//v1/", "/items/%41"}
+var muxPatternID, muxRequestID = func() ([]int, []int) {
+	var a, b []int
+	for _, x := range muxPatterns {
+		a = append(a, len(paths))
+		paths = append(paths, x)
+	}
+	for _, x := range muxRequests {
+		b = append(b, len(paths))
+		paths = append(paths, x)
+	}
+	return a, b
 }()
 
 func methodID(m string) int {
@@ -229,6 +251,8 @@ func (o hop) coq() string {
 	switch o.Kind {
 	case "barrier":
 		return "OBarrier"
+	case "panic":
+		return "OPanic " + cw.Z(o.K) // only ever part of keys and descriptions: panics are compared relationally (CSame)
 	case "flush":
 		return "OFlush"
 	case "obs":
@@ -271,6 +295,11 @@ func runOps(ops []hop, w http.ResponseWriter, r *http.Request, rec *recorder) {
 			if rec.bar != nil {
 				rec.bar.wait()
 			}
+		case "panic":
+			if o.K == 0 {
+				panic(http.ErrAbortHandler) // net/http's documented way to abort a response
+			}
+			panic(panicVal(o.K))
 		case "flush":
 			// what streaming handlers do: flush when the writer they were given can
 			if f, ok := w.(http.Flusher); ok {
@@ -306,6 +335,18 @@ func runOps(ops []hop, w http.ResponseWriter, r *http.Request, rec *recorder) {
 	}
 }
 
+type panicVal int
+
+func panicID(v any) int {
+	if v == http.ErrAbortHandler {
+		return 0
+	}
+	if k, ok := v.(panicVal); ok {
+		return int(k)
+	}
+	return -1
+}
+
 type mwc struct {
 	Kind string `json:"mw"`
 	I    int    `json:"i,omitempty"`
@@ -323,6 +364,8 @@ func (m mwc) coq() string {
 		return "MRec " + cw.Z(m.I)
 	case "scr":
 		return fmt.Sprintf("MScr %s %s", opsCoq(m.Pre), opsCoq(m.Post))
+	case "prec":
+		return "MPRec " + cw.Z(m.I)
 	}
 	panic("bad mw")
 }
@@ -338,6 +381,18 @@ func (m mwc) build(rec *recorder, lg *capLogger) httpMiddleware.HttpHandlerMiddl
 				rec.addR(r, 0, m.I)
 				next(w, r)
 				rec.addR(r, 1, m.I)
+			}
+		}
+	case "prec": // records the panic that passes through it and lets it travel on
+		return func(next http.HandlerFunc) http.HandlerFunc {
+			return func(w http.ResponseWriter, r *http.Request) {
+				defer func() {
+					if v := recover(); v != nil {
+						rec.addR(r, 8, m.I, panicID(v))
+						panic(v)
+					}
+				}()
+				next(w, r)
 			}
 		}
 	case "scr":
@@ -457,6 +512,8 @@ type request struct {
 	// Unsized: the body is sent without a Content-Length (HTTP/1.1: Transfer-Encoding: chunked; HTTP/2: DATA
 	// frames without a content-length header); the server then sees r.ContentLength == -1
 	Unsized bool `json:"body_sent_without_content_length"`
+	// MayAbort: the handler may end in a panic; a broken exchange is then an observation, not an environment problem
+	MayAbort bool `json:"may_abort,omitempty"`
 }
 
 type grpcReg struct {
@@ -470,6 +527,8 @@ type scenario struct {
 	HTTPS      *listenerCfg
 	TLSInCfg   bool // certificate passed through WithTlsConfig instead of files
 	H2         bool
+	Collect    bool    // do not emit cases: keep the observations for a relational comparison (runPair, runMux)
+	collected  []obsT
 	Overlap    bool // all requests are sent concurrently; their handlers meet at a barrier before reading
 	Reqs       []request
 	Grpc       []grpcReg // RegisterImplementation calls
@@ -626,6 +685,38 @@ func descOfName(n string) int {
 }
 
 // ---------- running one scenario ----------
+// what the client (and the recorder) observed of one exchange
+type obsT struct {
+	st      int
+	oh      []int
+	ob      []int
+	ev      [][]int
+	prot    string
+	info    [][]int // interim (1xx) responses the client received: code, then projected headers
+	aborted bool    // the exchange did not complete: transport error, or the body ended in an error
+	loc     []int   // bytes of the Location header
+}
+
+// vec renders an observation for the relational oracle (CSame): everything but the logger's lines
+func (o obsT) vec() [][]int {
+	ab := 0
+	if o.aborted {
+		ab = 1
+	}
+	v := [][]int{{ab, o.st}, append([]int{}, o.oh...), append([]int{}, o.ob...)}
+	for _, i := range o.info {
+		v = append(v, append([]int{100}, i...))
+	}
+	v = append(v, []int{-1})
+	for _, e := range o.ev {
+		if len(e) > 0 && (e[0] == 5 || e[0] == 6) {
+			continue
+		}
+		v = append(v, e)
+	}
+	return v
+}
+
 type gen struct {
 	w        *cw.Writer
 	rng      *rand.Rand
@@ -635,6 +726,7 @@ type gen struct {
 	requests int
 	retries  int
 	gettersCalled int
+	muxSkipped    int
 	stopTime time.Duration
 	waitTime time.Duration
 }
@@ -873,14 +965,6 @@ func (g *gen) runOnce(sc *scenario) (err error, retry bool) {
 	client := &http.Client{Transport: tr, Timeout: 30 * time.Second,
 		CheckRedirect: func(*http.Request, []*http.Request) error { return http.ErrUseLastResponse }}
 
-	type obsT struct {
-		st   int
-		oh   []int
-		ob   []int
-		ev   [][]int
-		prot string
-		info [][]int // interim (1xx) responses the client received: code, then projected headers
-	}
 	var obs []obsT
 	doReq := func(rq request, rid int) (obsT, error) {
 		var url string
@@ -916,16 +1000,22 @@ func (g *gen) runOnce(sc *scenario) (err error, retry bool) {
 			}}))
 		resp, e := client.Do(hr)
 		if e != nil {
+			if rq.MayAbort {
+				imu.Lock()
+				defer imu.Unlock()
+				return obsT{oh: []int{}, ob: []int{}, info: info, aborted: true}, nil
+			}
 			return obsT{}, e
 		}
 		rb, e := io.ReadAll(resp.Body)
 		resp.Body.Close()
-		if e != nil {
+		if e != nil && !rq.MayAbort {
 			return obsT{}, e
 		}
 		imu.Lock()
 		defer imu.Unlock()
-		return obsT{resp.StatusCode, projHdr(resp.Header), bytesToInts(rb), nil, resp.Proto, info}, nil
+		return obsT{st: resp.StatusCode, oh: projHdr(resp.Header), ob: bytesToInts(rb), prot: resp.Proto, info: info,
+			aborted: e != nil, loc: bytesToInts([]byte(resp.Header.Get("Location")))}, nil
 	}
 	if sc.Overlap {
 		rec.bar = newBarrier(len(sc.Reqs))
@@ -1028,6 +1118,10 @@ func (g *gen) runOnce(sc *scenario) (err error, retry bool) {
 	wg.Wait()
 	g.stopTime += time.Since(t0)
 
+	if sc.Collect {
+		sc.collected = obs
+		return nil, false
+	}
 	// everything went through: emit the cases
 	for i, rq := range sc.Reqs {
 		o := obs[i]
@@ -1144,6 +1238,143 @@ func (g *gen) runOnce(sc *scenario) (err error, retry bool) {
 	return nil, false
 }
 
+// ---------- relational oracles ----------
+
+func stripLogging(l []mwc) []mwc {
+	r := []mwc{}
+	for _, m := range l {
+		if m.Kind != "logreq" && m.Kind != "logresp" {
+			r = append(r, m)
+		}
+	}
+	return r
+}
+
+// runPair runs the same routes and requests on two servers, one with the middleware list mws and one with
+// LogRequest/LogResponse removed from it, and emits one CSame case per request: transparency stated
+// relationally, for behaviour the Coq model does not describe (handlers that end in a panic).
+func (g *gen) runPair(group string, calls []route, mws []mwc, direct bool, reqs []request, h2, tlsInCfg bool) error {
+	mk := func(m []mwc) *scenario {
+		l := &listenerCfg{Calls: calls, HasMw: true, Mw: m, Direct: direct && len(m) == 1}
+		return &scenario{Group: group, HTTP: l, HTTPS: l, H2: h2, TLSInCfg: tlsInCfg, Collect: true, Reqs: reqs}
+	}
+	a, b := mk(mws), mk(stripLogging(mws))
+	if err := g.run(a); err != nil {
+		return err
+	}
+	if err := g.run(b); err != nil {
+		return err
+	}
+	for i, rq := range reqs {
+		oa, ob := a.collected[i], b.collected[i]
+		lname := []string{"http", "https"}[rq.Listener]
+		tags := []string{lname + "-" + group, "proto-" + oa.prot}
+		var prog []hop
+		for _, c := range calls {
+			if c.P == rq.P && c.M == rq.M {
+				prog = c.Ops
+			}
+		}
+		ends := "returns"
+		for _, o := range prog {
+			if o.Kind == "panic" {
+				ends = "panic(http.ErrAbortHandler)"
+				if o.K != 0 {
+					ends = "panic(ordinary value)"
+				}
+			}
+		}
+		tags = append(tags, "handler-"+strings.Fields(ends)[0])
+		if ob.aborted {
+			tags = append(tags, "exchange-aborted")
+		}
+		g.w.Add(cw.Case{Coq: fmt.Sprintf("CSame 1 %s %s", cw.ZLL(oa.vec()), cw.ZLL(ob.vec())),
+			Desc: map[string]any{"kind": "with-vs-without-logging-middleware", "listener": lname, "handler": prog, "handler_ends_with": ends,
+				"middleware": mws, "middleware_without_logging": stripLogging(mws), "direct": direct,
+				"request": map[string]any{"method": methods[rq.M], "path": paths[rq.P]},
+				"with":    map[string]any{"aborted": oa.aborted, "status": oa.st, "xv_headers": oa.oh, "body": oa.ob, "interim": oa.info, "events": oa.ev, "proto": oa.prot},
+				"without": map[string]any{"aborted": ob.aborted, "status": ob.st, "xv_headers": ob.oh, "body": ob.ob, "interim": ob.info, "events": ob.ev, "proto": ob.prot},
+				"event_legend": "0 enter i|1 exit i|7 handler|8 i v: panic value v (0 = http.ErrAbortHandler) seen by recovering middleware i, which re-panics"},
+			Tags: tags, Key: fmt.Sprintf("pair|%s|%s|%v|%v|%v|%d", lname, opsCoq(prog), mws, direct, h2, rq.P)})
+	}
+	return nil
+}
+
+// runMux compares the running server with a reference http.ServeMux built here from the same (method, path)
+// list: which handler answers (or 404/405/301 + Location).  The reference is net/http itself, so this says
+// nothing about ServeMux; it says that the providers hand every configured route to the router unchanged.
+func (g *gen) runMux(rts []route, withMw bool, reqs []request, h2, tlsInCfg bool) error {
+	final := map[string]int{}
+	var order []string
+	for i, c := range rts {
+		k := methods[c.M] + " " + paths[c.P]
+		if _, ok := final[k]; !ok {
+			order = append(order, k)
+		}
+		final[k] = i // AddRoute: the last registration for a (method, path) pair wins
+	}
+	ref := http.NewServeMux()
+	conflict := false
+	func() {
+		defer func() {
+			if recover() != nil {
+				conflict = true
+			}
+		}()
+		for _, k := range order {
+			idx := final[k]
+			ref.HandleFunc(k, func(w http.ResponseWriter, r *http.Request) {
+				w.Header().Set("X-Ref-Idx", strconv.Itoa(idx))
+				w.Write([]byte{byte(idx)})
+			})
+		}
+	}()
+	if conflict { // ServeMux rejects the pattern set: the real provider would panic the same way; not a configuration
+		g.muxSkipped++
+		return nil
+	}
+	l := &listenerCfg{Calls: rts}
+	if withMw {
+		l.HasMw, l.Mw = true, []mwc{{Kind: "rec", I: 1}, {Kind: "logresp"}}
+	}
+	sc := &scenario{Group: "mux", HTTP: l, HTTPS: l, H2: h2, TLSInCfg: tlsInCfg, Collect: true, Reqs: reqs}
+	if err := g.run(sc); err != nil {
+		return err
+	}
+	for i, rq := range reqs {
+		o := sc.collected[i]
+		idx := -1
+		for _, e := range o.ev {
+			if len(e) == 2 && e[0] == 7 {
+				idx = e[1]
+			}
+		}
+		rr := httptest.NewRecorder()
+		ref.ServeHTTP(rr, httptest.NewRequest(methods[rq.M], paths[rq.P], nil))
+		ridx := -1
+		if v := rr.Header().Get("X-Ref-Idx"); v != "" {
+			ridx, _ = strconv.Atoi(v)
+		}
+		rloc := bytesToInts([]byte(rr.Header().Get("Location")))
+		lname := []string{"http", "https"}[rq.Listener]
+		var rs []string
+		for _, c := range rts {
+			rs = append(rs, methods[c.M]+" "+paths[c.P])
+		}
+		tags := []string{lname + "-mux", "status-" + strconv.Itoa(rr.Code), "proto-" + o.prot}
+		if ridx >= 0 {
+			tags = append(tags, "served")
+		}
+		g.w.Add(cw.Case{Coq: fmt.Sprintf("CSame 0 %s %s", cw.ZLL([][]int{{rr.Code, ridx}, rloc}), cw.ZLL([][]int{{o.st, idx}, o.loc})),
+			Desc: map[string]any{"kind": "reference-servemux-vs-server", "listener": lname, "routes": rs, "with_middleware": withMw,
+				"request":   map[string]any{"method": methods[rq.M], "path": paths[rq.P]},
+				"reference": map[string]any{"status": rr.Code, "handler_index": ridx, "location": rr.Header().Get("Location")},
+				"server":    map[string]any{"status": o.st, "handler_index": idx, "location": string(intsToBytes(o.loc)), "proto": o.prot}},
+			Tags: tags, Key: fmt.Sprintf("mux|%s|%v|%v|%s %s", lname, rs, withMw, methods[rq.M], paths[rq.P]), Trivial: len(rts) == 0})
+	}
+	return nil
+}
+
 // ---------- generators ----------
 func (g *gen) randOps(maxLen int, handler bool) []hop {
 	n := g.rng.Intn(maxLen + 1)
@@ -1218,7 +1449,7 @@ func (g *gen) randListener() *listenerCfg {
 	l := &listenerCfg{}
 	nr := g.rng.Intn(6)
 	for i := 0; i < nr; i++ {
-		l.Calls = append(l.Calls, route{M: g.rng.Intn(len(methods)), P: g.rng.Intn(len(paths)), Ops: g.randOps(6, true)})
+		l.Calls = append(l.Calls, route{M: g.rng.Intn(len(methods)), P: g.rng.Intn(nLiteralPaths), Ops: g.randOps(6, true)})
 	}
 	if g.rng.Intn(5) > 0 {
 		l.HasMw = true
@@ -1305,7 +1536,7 @@ func (g *gen) randReq(listener int, l *listenerCfg) request {
 			rq.M = 1
 		}
 	} else {
-		rq.M, rq.P = g.rng.Intn(len(methods)), g.rng.Intn(len(paths))
+		rq.M, rq.P = g.rng.Intn(len(methods)), g.rng.Intn(nLiteralPaths)
 	}
 	for k := 1; k <= 4; k++ {
 		if g.rng.Intn(3) == 0 {
@@ -1484,7 +1715,7 @@ func main() {
 	}
 	recW(nil)
 	if !thorough { // a seeded sample of the length-3 programs on top of all shorter ones
-		for k := 0; k < 32; k++ {
+		for k := 0; k < 16; k++ {
 			pr := []hop{}
 			for j := 0; j < 3; j++ {
 				a := wAlpha[g.rng.Intn(len(wAlpha))]
@@ -1516,6 +1747,101 @@ func main() {
 		}
 	}
 
+	// --- route patterns beyond literals, against a reference ServeMux: subtrees, "/", wildcards, {$}, request paths
+	//     that need cleaning ---
+	muxUniv := [][2]int{{0, 0}, {0, 1}, {2, 1}, {0, 2}, {0, 3}, {0, 4}, {0, 5}, {0, 6}, {0, 7}, {0, 8}} // (method, index into muxPatterns)
+	nMux := 20
+	if thorough {
+		nMux = 500
+	}
+	mkMuxReqs := func(k int) []request {
+		var reqs []request
+		for qi, pid := range muxRequestID {
+			reqs = append(reqs, request{Listener: (qi + k) % 2, M: 0, P: pid, H: []int{}, B: []int{}})
+			if (qi+k)%3 == 0 {
+				reqs = append(reqs, request{Listener: (qi + k + 1) % 2, M: 2, P: pid, H: []int{}, B: []int{}})
+			}
+			if (qi+k)%4 == 1 {
+				reqs = append(reqs, request{Listener: (qi + k) % 2, M: 1, P: pid, H: []int{}, B: []int{}})
+			}
+		}
+		return reqs
+	}
+	for k := 0; k < nMux+len(muxUniv)+1; k++ {
+		var rts []route
+		add := func(u [2]int) {
+			rts = append(rts, route{M: u[0], P: muxPatternID[u[1]], Ops: []hop{{Kind: "write", Bs: []int{len(rts)}}}})
+		}
+		switch {
+		case k < len(muxUniv): // every pattern alone
+			add(muxUniv[k])
+		case k == len(muxUniv): // all of them
+			for _, u := range muxUniv {
+				add(u)
+			}
+		default:
+			for _, u := range muxUniv {
+				if g.rng.Intn(2) == 0 {
+					add(u)
+				}
+			}
+			if g.rng.Intn(3) == 0 && len(rts) > 0 { // the same pair registered again: the later handler
+				u := rts[g.rng.Intn(len(rts))]
+				rts = append(rts, route{M: u.M, P: u.P, Ops: []hop{{Kind: "write", Bs: []int{len(rts)}}}})
+			}
+		}
+		must(g.runMux(rts, k%2 == 0, mkMuxReqs(k), k%4 < 2, k%3 == 0))
+	}
+
+	// --- handlers that end in a panic (http.ErrAbortHandler or an ordinary value), after nothing / headers / partial
+	//     writes / a flush: with and without the logging middleware the client must see the same outcome (aborted or
+	//     completed, what arrived before) and recovering middleware the same panic value ---
+	PL := 2
+	if thorough {
+		PL = 3
+	}
+	pAlpha := []hop{{Kind: "set", K: 1, V: 5}, {Kind: "status", K: 201}, {Kind: "write", Bs: []int{1, 2}}, {Kind: "flush"}, {Kind: "status", K: 103}}
+	var pProgs [][]hop
+	var recP func(cur []hop)
+	recP = func(cur []hop) {
+		for _, end := range []int{0, 3, -1} { // ErrAbortHandler, an ordinary value, no panic
+			pr := append([]hop{}, cur...)
+			if end >= 0 {
+				pr = append(pr, hop{Kind: "panic", K: end})
+			}
+			pProgs = append(pProgs, pr)
+		}
+		if len(cur) == PL {
+			return
+		}
+		for _, a := range pAlpha {
+			recP(append(cur, a))
+		}
+	}
+	recP(nil)
+	pMws := []struct {
+		mw     []mwc
+		direct bool
+	}{{[]mwc{{Kind: "prec", I: 1}, {Kind: "logresp"}}, false}, {[]mwc{{Kind: "logresp"}}, true},
+		{[]mwc{{Kind: "prec", I: 1}, {Kind: "logreq"}, {Kind: "logresp"}, {Kind: "rec", I: 2}, {Kind: "logresp"}, {Kind: "prec", I: 3}}, false}}
+	for base := 0; base < len(pProgs); base += 8 {
+		end := base + 8
+		if end > len(pProgs) {
+			end = len(pProgs)
+		}
+		for wi, pm := range pMws {
+			var calls []route
+			var reqs []request
+			for k := base; k < end; k++ {
+				calls = append(calls, route{M: 2, P: 8 + (k - base), Ops: pProgs[k]})
+				for ls := 0; ls < 2; ls++ { // POST without a body: the client never re-sends it after a broken connection
+					reqs = append(reqs, request{Listener: ls, M: 2, P: 8 + (k - base), H: []int{}, B: []int{}, MayAbort: true})
+				}
+			}
+			must(g.runPair("panic", calls, pm.mw, pm.direct, reqs, (wi+base/8)%2 == 0, wi%2 == 1))
+		}
+	}
+
 	// --- G1: routing, exhaustive: every subset of {GET,HEAD,POST} x {/p0,/p1}, every request of
 	//         {GET,HEAD,POST,PUT} x {/p0,/p1,/p2}, on both listeners ---
 	univ := [][2]int{{0, 0}, {1, 0}, {2, 0}, {0, 1}, {1, 1}, {2, 1}}
@@ -1528,6 +1854,9 @@ func main() {
 		for _, m := range []int{0, 1, 2, 3} {
 			for _, p := range []int{0, 1, 2} {
 				for ls := 0; ls < 2; ls++ {
+					if !thorough && (m+p+si+ls)%2 == 1 { // quick tier: each request on one of the listeners, alternating
+						continue
+					}
 					sc.Reqs = append(sc.Reqs, request{Listener: ls, M: m, P: p, H: []int{}, B: []int{}})
 				}
 			}
@@ -1683,7 +2012,7 @@ func main() {
 	}
 
 	// --- G3: structured random configurations ---
-	nRand := 120
+	nRand := 100
 	if thorough {
 		nRand = 2500
 	}
@@ -1765,6 +2094,8 @@ func main() {
 	g.w.Extra["scope"] = g.w.Extra["scope"].(string) + fmt.Sprintf("; second routing universe: all %d subsets of 5 pairs (GET/PUT /a/b, GET /a/b/c, DELETE /p0/q, OPTIONS /p0) x 20 requests; configuration call sequences: all %d sequences up to length %d over {3 AddRoute symbols, GetRoutes} with a GetRoutes and an AddRoute (adds via builder and via the config object, middleware set after reads), half of the random configurations as call sequences with getters and replaced middleware; request bodies with and without Content-Length (chunked / unsized h2)", 1<<len(univ2), len(seqs), SL)
 	g.w.Extra["scope"] = g.w.Extra["scope"].(string) + fmt.Sprintf("; overlapping requests: %d rounds x 5 middleware lists x 2 handler programs x 2 listeners, %d requests at once meeting at a barrier inside their handlers before reading", overlapRounds, overlapN)
 	g.w.Extra["scope"] = g.w.Extra["scope"].(string) + fmt.Sprintf("; response writing: %d handler programs (all sequences up to length %d over 103/102/404/201 WriteHeader, Write, empty Write, Flush, Header().Set) x 4 middleware settings", len(wProgs), WL)
+	g.w.Extra["scope"] = g.w.Extra["scope"].(string) + fmt.Sprintf("; reference ServeMux: %d route sets over 10 (method, pattern) pairs (subtrees, /, {id}, {$}, {p...}, literals) x %d request paths incl. ones needing cleaning; panics: %d handler programs (prefix up to length %d, ending in ErrAbortHandler / an ordinary panic / return) x 3 middleware lists, each on a server with and one without the logging middleware", nMux+len(muxUniv)+1, len(muxRequests), len(pProgs), PL)
+	g.w.Extra["mux_route_sets_rejected_by_servemux"] = g.muxSkipped
 	g.w.Extra["read_accessor_calls_during_configuration"] = g.gettersCalled
 	g.w.Extra["servers_started"] = g.servers
 	g.w.Extra["requests_sent"] = g.requests
